@@ -87,6 +87,7 @@ func registerAbstractBytes2(pkg, typ string) {
 type fnInfo struct {
 	mod, name string
 	decl      *ast.FuncDecl
+	mut       bool // pointer-receiver method that writes through its receiver: state-passing translation
 }
 
 type recField struct {
@@ -107,6 +108,7 @@ type v2 struct {
 	recs  map[*types.TypeName]*recInfo
 	recOf map[string][]*recInfo // per module, in dependency order
 	mods  map[string]string     // package path -> module name
+	deps  map[string]map[string]bool // module -> modules it refers to
 	errs  []string
 }
 
@@ -148,6 +150,8 @@ type tr2 struct {
 	fresh map[types.Object]bool
 	sig   *types.Signature
 	errs  []string
+	// receiver of a state-passing method (written through): every return also returns it
+	mutRecv types.Object
 }
 
 func (t *tr2) fail(n ast.Node, f string, a ...any) {
@@ -221,6 +225,26 @@ func ptrStruct(ty types.Type) (*types.Named, bool) {
 	return n, ok
 }
 
+// atomicKind: sync/atomic.Uint32 etc. are modelled as the integer they hold; Add / Load / Store are
+// single sequential steps (concurrency is not modelled - the tie is about the arithmetic).
+func atomicKind(ty types.Type) (ikind, bool) {
+	n, ok := ty.(*types.Named)
+	if !ok || n.Obj().Pkg() == nil || n.Obj().Pkg().Path() != "sync/atomic" {
+		return ikind{}, false
+	}
+	switch n.Obj().Name() {
+	case "Uint32":
+		return ikind{false, 32}, true
+	case "Uint64":
+		return ikind{false, 64}, true
+	case "Int32":
+		return ikind{true, 32}, true
+	case "Int64":
+		return ikind{true, 64}, true
+	}
+	return ikind{}, false
+}
+
 func isAbstractBytes(ty types.Type) bool {
 	n, ok := ty.(*types.Named)
 	if !ok || n.Obj().Pkg() == nil {
@@ -234,6 +258,9 @@ func (t *tr2) typeOK(ty types.Type) bool {
 		return true
 	}
 	if _, ok := intKind(ty); ok {
+		return true
+	}
+	if _, ok := atomicKind(ty); ok {
 		return true
 	}
 	if n, _, ok := namedStruct(ty); ok {
@@ -275,6 +302,10 @@ func (t *tr2) q(mod, name string) string {
 	if mod == t.mod {
 		return name
 	}
+	if t.g.deps[t.mod] == nil {
+		t.g.deps[t.mod] = map[string]bool{}
+	}
+	t.g.deps[t.mod][mod] = true
 	return mod + "." + name
 }
 
@@ -283,6 +314,9 @@ func (t *tr2) ctype(n ast.Node, ty types.Type) string {
 		return "bool"
 	}
 	if _, ok := intKind(ty); ok {
+		return "Z"
+	}
+	if _, ok := atomicKind(ty); ok {
 		return "Z"
 	}
 	if isBytes(ty) || isAbstractBytes(ty) {
@@ -321,6 +355,9 @@ func (t *tr2) zero(n ast.Node, ty types.Type) string {
 		return "false"
 	}
 	if _, ok := intKind(ty); ok {
+		return "0"
+	}
+	if _, ok := atomicKind(ty); ok {
 		return "0"
 	}
 	if ln, ok := isArray(ty); ok && isBytes(ty) {
@@ -382,7 +419,7 @@ func recvTypeName(fd *ast.FuncDecl) string {
 
 func runV2(ci *chainImporter, repo, outPath, manifestPath string) int {
 	g := &v2{ci: ci, fset: ci.fset, fns: map[*types.Func]*fnInfo{}, recs: map[*types.TypeName]*recInfo{},
-		recOf: map[string][]*recInfo{}, mods: map[string]string{}}
+		recOf: map[string][]*recInfo{}, mods: map[string]string{}, deps: map[string]map[string]bool{}}
 	var items []genItem
 
 	// pass 1: load packages, resolve the whitelisted declarations
@@ -430,7 +467,7 @@ func runV2(ci *chainImporter, repo, outPath, manifestPath string) int {
 				g.errs = append(g.errs, fmt.Sprintf("package %s: function %s has no type information", tg.Pkg, fn))
 				continue
 			}
-			g.fns[obj] = &fnInfo{mod: mod, name: coqFnName(fn), decl: fd}
+			g.fns[obj] = &fnInfo{mod: mod, name: coqFnName(fn), decl: fd, mut: ps.t.writesReceiver(fd)}
 			ps.fds = append(ps.fds, fd)
 		}
 		pkgs = append(pkgs, ps)
@@ -471,7 +508,36 @@ func runV2(ci *chainImporter, repo, outPath, manifestPath string) int {
 	var out bytes.Buffer
 	out.WriteString("(* GENERATED by /verif/translator (v2, -out2) from the current /repo sources. DO NOT EDIT. *)\n")
 	out.WriteString("From Coq Require Import String.\nFrom Coq Require Import ZArith Bool List.\nFrom GoSecs Require Import Base.GoInt Base.BytesBE Base.GoSlice.\nImport ListNotations.\nOpen Scope Z_scope.\n\n")
+	// modules in dependency order (registration order among independent ones)
+	var ordered []*pkgState
+	state := map[string]int{}
+	var visit func(ps *pkgState)
+	visit = func(ps *pkgState) {
+		if state[ps.t.mod] != 0 {
+			if state[ps.t.mod] == 1 {
+				g.errs = append(g.errs, "cyclic reference between translated packages at "+ps.t.mod)
+			}
+			return
+		}
+		state[ps.t.mod] = 1
+		for _, q := range pkgs {
+			if g.deps[ps.t.mod][q.t.mod] {
+				visit(q)
+			}
+		}
+		state[ps.t.mod] = 2
+		ordered = append(ordered, ps)
+	}
 	for _, ps := range pkgs {
+		visit(ps)
+	}
+	if len(g.errs) > 0 {
+		for _, e := range g.errs {
+			fmt.Fprintln(os.Stderr, "translator(v2):", e)
+		}
+		return 1
+	}
+	for _, ps := range ordered {
 		mod := ps.t.mod
 		fmt.Fprintf(&out, "Module %s.\n\n", mod)
 		for _, r := range g.recOf[mod] {
@@ -574,6 +640,36 @@ func (t *tr2) function(fd *ast.FuncDecl) string {
 	end := noRest
 	if sig.Results().Len() == 0 {
 		end = "(GOk tt)"
+	}
+	t.mutRecv = nil
+	if fi.mut {
+		// state-passing: the function also returns its (updated) receiver
+		r := sig.Recv()
+		t.mutRecv = r
+		rn := ident(r.Name())
+		rty = "(" + t.ctype(fd, r.Type()) + " * " + rty + ")"
+		c = &fctx{rty: rty, ret: func(v string) string { return "(GOk (" + rn + ", " + v + "))" }}
+		if sig.Results().Len() == 0 {
+			end = "(GOk (" + rn + ", tt))"
+		}
+		ast.Inspect(fd.Body, func(n ast.Node) bool {
+			var body *ast.BlockStmt
+			switch x := n.(type) {
+			case *ast.ForStmt:
+				body = x.Body
+			case *ast.RangeStmt:
+				body = x.Body
+			}
+			if body != nil {
+				ast.Inspect(body, func(m ast.Node) bool {
+					if _, isRet := m.(*ast.ReturnStmt); isRet {
+						t.fail(m, "return inside a loop of a receiver-mutating method unsupported")
+					}
+					return true
+				})
+			}
+			return true
+		})
 	}
 	body := t.stmts(fd.Body.List, c, func() string { return end })
 	if strings.Contains(body, noRest) {
@@ -679,4 +775,45 @@ func (t *tr2) findFresh(fd *ast.FuncDecl) {
 	for o := range bad {
 		delete(t.fresh, o)
 	}
+}
+
+// atomicCall recognises x.Add(k) / x.Load() / x.Store(v) on a sync/atomic integer.
+func (t *tr2) atomicCall(call *ast.CallExpr) (target ast.Expr, method string, k ikind, ok bool) {
+	sel, isSel := call.Fun.(*ast.SelectorExpr)
+	if !isSel {
+		return nil, "", ikind{}, false
+	}
+	ty := t.info.TypeOf(sel.X)
+	if ty == nil {
+		return nil, "", ikind{}, false
+	}
+	if p, isP := ty.(*types.Pointer); isP {
+		ty = p.Elem()
+	}
+	k, ok = atomicKind(ty)
+	if !ok {
+		return nil, "", ikind{}, false
+	}
+	return sel.X, sel.Sel.Name, k, true
+}
+
+// writesReceiver: a pointer-receiver method whose body assigns through the receiver (field
+// assignment, element assignment, copy / PutUint into it, atomic Add / Store on a field).
+func (t *tr2) writesReceiver(fd *ast.FuncDecl) bool {
+	if fd.Recv == nil || len(fd.Recv.List) != 1 || len(fd.Recv.List[0].Names) != 1 {
+		return false
+	}
+	if _, isPtr := fd.Recv.List[0].Type.(*ast.StarExpr); !isPtr {
+		return false
+	}
+	recv := t.info.Defs[fd.Recv.List[0].Names[0]]
+	if recv == nil {
+		return false
+	}
+	for _, o := range t.assignedOutside(fd.Body) {
+		if o == recv {
+			return true
+		}
+	}
+	return false
 }
